@@ -36,8 +36,8 @@ MANIFEST_ENTRY = {
         "codecs are proved under C07/C19. Flask routing, DB lookup, MP4 re-encoding not modelled."),
     "technique": "Lean 4 proof (slice of the global sequence + floor-division/leeway inequalities via linarith) + model/implementation correspondence",
 }
-PROP_FILES = ["DashLive/Props/C01.lean"]
-LEAN_TARGETS = ["DashLive.Props.C01"]
+PROP_FILES = ["DashLive/Props/C01.lean", "DashLive/Props/GenTie.lean"]
+LEAN_TARGETS = ["DashLive.Props.C01", "DashLive.Props.GenTie"]
 
 
 def _gen_options():
@@ -46,7 +46,14 @@ def _gen_options():
     gen_options.main()
 
 
-GENERATORS = [_gen_options]
+def _gen_arith():
+    """Gen/Arith.lean (incl. the `while` loop of get_segment_index) is translated from /repo's source
+    text; Props/GenTie.lean proves it equal to the model (`tie_getSegmentIndex`)"""
+    import gen_arith
+    gen_arith.main()
+
+
+GENERATORS = [_gen_options, _gen_arith]
 TRUSTED = [
     "harness/segwalk.py (client-side MPD reading incl. the ISO/IEC 23009-1 5.3.9.5.3 window), mp4walk, mp4synth, /verif/shims",
     "timescale_to_timedelta (float) is a model parameter fed with the implementation's value; ConvSpec (within 1 us) is checked on every value used",
